@@ -243,6 +243,25 @@ def run(ctx):
                         handle(case, S.ss_envs(e), 'self:' + A.shape(e) + f'|{k}{op}{flip}', 'self-comparison')
                         ctx.count('self_comparison_terms')
 
+    # 1d. aggregates over constant ranges: every pair of small bounds of either sign x exclusion flags x function
+    idx = 0
+    for fn in ('sum', 'prod', 'len', 'max', 'min'):
+        for lo in range(-3, 4):
+            for hi in range(-3, 4):
+                for exlo in (False, True):
+                    for exhi in (False, True):
+                        idx += 1
+                        if not ctx.mine(idx):
+                            continue
+                        nlo = A.neg(A.num(str(-lo))) if lo < 0 else A.num(str(lo))
+                        nhi = A.neg(A.num(str(-hi))) if hi < 0 else A.num(str(hi))
+                        call = ('call', fn, (('range', nlo, nhi, exlo, exhi),))
+                        e = gen.pick(rng, (call, ('bin', '=', A.fld('x'), call), ('bin', '<', call, A.fld('y')),
+                                           ('bin', '+', call, A.fld('x'))))
+                        case = S.Case(e, S.SS_THIS, {'A': S.SS_ALIAS}, 'expression')
+                        handle(case, S.ss_envs(e), f'rangeagg:{fn}|{lo}|{hi}|{exlo}{exhi}|{e[0]}{e[1] if e[0] == "bin" else ""}', 'range-aggregate')
+                        ctx.count('range_aggregate_terms')
+
     # 2. random typed terms, simplifier-biased
     for n in range(ctx.share(B['random'])):
         t = gen.pick(rng, (gen.BOOL, gen.BOOL, gen.BOOL, gen.NUM, gen.NUM, gen.STR))
